@@ -130,7 +130,7 @@ def tie(ctx, tier_override=None, tag="tie"):
     # which variant of the model does the tree follow?  (fx, sp, ob, un) = lexer-non-ascii /
     # int-literal-span / builtin-operator-span / unescape-invalid-escape fix applied or not
     lines = common.read_lines(p("model_in.txt"))
-    first = [(1, 1, 0, 1), (1, 1, 1, 1), (0, 0, 0, 0), (0, 0, 1, 0)]
+    first = [(1, 1, 1, 1), (1, 1, 0, 1), (0, 0, 0, 0), (0, 0, 1, 0)]
     order = first + [(a, b, c, d) for a in (0, 1) for b in (0, 1) for c in (0, 1) for d in (0, 1) if (a, b, c, d) not in first]
     results = {}
     best = None
